@@ -343,7 +343,7 @@ func (p *parser) parseIntegerLiteral() ast.Expression {
 
 	value, err := strconv.Atoi(p.curToken.Literal)
 	if err != nil {
-		msg := fmt.Sprintf("could not parse %q as integer", p.curToken.Literal)
+		msg := fmt.Sprintf("line %d: could not parse %q as integer", p.curToken.LineNumber, p.curToken.Literal)
 		p.errors = append(p.errors, msg)
 		return nil
 	}
@@ -358,7 +358,7 @@ func (p *parser) parseFloatLiteral() ast.Expression {
 
 	value, err := strconv.ParseFloat(p.curToken.Literal, 64)
 	if err != nil {
-		msg := fmt.Sprintf("could not parse %q as float", p.curToken.Literal)
+		msg := fmt.Sprintf("line %d: could not parse %q as float", p.curToken.LineNumber, p.curToken.Literal)
 		p.errors = append(p.errors, msg)
 		return nil
 	}
